@@ -532,7 +532,8 @@ def gen_history(rng, length):
             st = {"op": "setitem", "x": x}
             if rng.random() < 0.2:
                 # dask boolean mask of x's shape: x itself or another same-shape member, scalar value
-                cands = [n for n in names if sim.np[n].shape == m.shape and n not in sim.unknown]
+                # unknown chunk sizes: only a mask derived from x itself is aligned with x (anything else is refused at compute: C28)
+                cands = [x] if x in sim.unknown else [n for n in names if sim.np[n].shape == m.shape and n not in sim.unknown]
                 if not cands:
                     continue
                 st["mask"] = {"ref": rng.choice(cands), "cmp": rng.choice([">", "%"]), "c": rng.randint(1, 6)}
